@@ -230,6 +230,7 @@ def run_impl_shard(sub, casefile, ncases, ids, outpath, timeout):
     start = 0
     chunks = []
     aborted = []
+    hangs = 0
     while start < ncases:
         try:
             p = subprocess.run([HARNESS_BIN, sub, casefile, str(start)], stdout=subprocess.PIPE, stderr=subprocess.DEVNULL,
@@ -265,6 +266,14 @@ def run_impl_shard(sub, casefile, ncases, ids, outpath, timeout):
                 chunks.append('CASE %s\n%s\nTRACE-BEGIN\n%s\n%s rc=%d\nTRACE-END' % (ids[start], '\n'.join(dump + h), '\n'.join(tr), kind, rc))
                 aborted.append(ids[start])
                 start += 1
+                if kind == 'HANG':
+                    hangs += 1
+                    if hangs >= 3:
+                        # every further hang costs the whole watchdog period; three concrete hanging inputs per shard
+                        # are reported, the rest of the shard is not run
+                        for cid in ids[start:]:
+                            chunks.append('CASE %s\nTRACE-BEGIN\nSKIPPED after repeated hangs in this shard\nTRACE-END' % cid)
+                        start = ncases
     with open(outpath, 'w', encoding='utf-8') as f:
         f.write('\n'.join(chunks) + '\n')
     return aborted
@@ -503,6 +512,9 @@ def run_check(spec, tier, seed):
                 for k, v in (c.get('tags') or {}).items():
                     dist.setdefault(k, {}).setdefault(str(v), 0)
                     dist[k][str(v)] += 1
+                if it and it[0].startswith('SKIPPED'):
+                    stats['skipped_after_hangs'] = stats.get('skipped_after_hangs', 0) + 1
+                    continue
                 if it and it[0].startswith('PARSE-'):
                     stats['parse_rejected'] += 1
                     if spec.get('parse_oracle'):
